@@ -83,9 +83,38 @@ impl<'a> World<'a> {
             return;
         }
         let (is_issue, id) = pool[self.ch.pick_usize(pool.len())];
-        // mostly somebody who is not a delegate
+        // mostly somebody who is not a delegate; often somebody with a role on the object (its author, the
+        // author of one of its revisions) acting on what belongs to somebody else
         let nd: Vec<usize> = (0..self.reps.len()).filter(|i| !self.reps[*i].delegate).collect();
-        let r = if !nd.is_empty() && self.ch.pick(5) != 4 { nd[self.ch.pick_usize(nd.len())] } else { r };
+        let mut roles: Vec<usize> = Vec::new();
+        {
+            let probe = self.repo(r);
+            let mut keys: Vec<PublicKey> = Vec::new();
+            if is_issue {
+                if let Ok(Some(o)) = radicle::cob::get::<issue::Issue, _>(&probe, &issue::TYPENAME, &id) {
+                    keys.push(*o.object.author().id().as_key());
+                }
+            } else if let Ok(Some(o)) = radicle::cob::get::<patch::Patch, _>(&probe, &patch::TYPENAME, &id) {
+                keys.push(*o.object.author().id().as_key());
+                for (_, rev) in o.object.revisions() {
+                    keys.push(*rev.author().id().as_key());
+                }
+            }
+            for k in keys {
+                if let Some(i) = self.reps.iter().position(|x| x.nid == k && !x.delegate) {
+                    if !roles.contains(&i) {
+                        roles.push(i);
+                    }
+                }
+            }
+        }
+        let r = if !roles.is_empty() && self.ch.pick(3) == 0 {
+            roles[self.ch.pick_usize(roles.len())]
+        } else if !nd.is_empty() && self.ch.pick(5) != 4 {
+            nd[self.ch.pick_usize(nd.len())]
+        } else {
+            r
+        };
         self.stamp(r);
         let repo = self.repo(r);
         let signer = self.reps[r].signer.clone();
@@ -130,7 +159,7 @@ impl<'a> World<'a> {
                     kind = "label";
                     delegate_only = true;
                     let mut labels: BTreeSet<Label> = iss.labels().cloned().collect();
-                    if self.ch.pick(3) == 0 && !labels.is_empty() {
+                    if self.ch.pick(2) == 0 && !labels.is_empty() {
                         // or: drop one of the current labels
                         kind = "label-removal";
                         let first = labels.iter().next().cloned().unwrap();
@@ -145,7 +174,7 @@ impl<'a> World<'a> {
                     kind = "assign";
                     delegate_only = true;
                     let mut assignees: BTreeSet<Did> = iss.assignees().cloned().collect();
-                    if self.ch.pick(3) == 0 && !assignees.is_empty() {
+                    if self.ch.pick(2) == 0 && !assignees.is_empty() {
                         kind = "assignee-removal";
                         let first = assignees.iter().next().cloned().unwrap();
                         assignees.remove(&first);
@@ -218,7 +247,7 @@ impl<'a> World<'a> {
                     kind = "label";
                     delegate_only = true;
                     let mut labels: BTreeSet<Label> = p.labels().cloned().collect();
-                    if self.ch.pick(3) == 0 && !labels.is_empty() {
+                    if self.ch.pick(2) == 0 && !labels.is_empty() {
                         kind = "label-removal";
                         let first = labels.iter().next().cloned().unwrap();
                         labels.remove(&first);
@@ -232,7 +261,7 @@ impl<'a> World<'a> {
                     kind = "assign";
                     delegate_only = true;
                     let mut assignees: BTreeSet<Did> = p.assignees().collect();
-                    if self.ch.pick(3) == 0 && !assignees.is_empty() {
+                    if self.ch.pick(2) == 0 && !assignees.is_empty() {
                         kind = "assignee-removal";
                         let first = assignees.iter().next().cloned().unwrap();
                         assignees.remove(&first);
